@@ -61,3 +61,85 @@ def rational_equal(a, b, env=None):
     A = to_sympy(a, env) if isinstance(a, z3.ExprRef) else a
     B = to_sympy(b, env) if isinstance(b, z3.ExprRef) else b
     return sp.cancel(sp.together(A - B)) == 0
+
+
+def from_sympy(e, env):
+    """sympy polynomial with rational coefficients over the symbols of `env` (name -> sympy symbol, filled by to_sympy) back to
+    a z3 real term; the z3 leaves are recovered from `leaves` (name -> z3 term) stored alongside"""
+    leaves = env["#leaves"]
+    e = sp.expand(e)
+
+    def go(x):
+        if x.is_Symbol:
+            return leaves[x.name]
+        if x.is_Integer:
+            return z3.RealVal(int(x))
+        if x.is_Rational:
+            return z3.RealVal(f"{x.p}/{x.q}")
+        if x.is_Float:
+            return z3.RealVal(repr(float(x)))
+        if x.is_Add:
+            terms = [go(a) for a in sorted(x.args, key=sp.default_sort_key)]
+            r = terms[0]
+            for t in terms[1:]:
+                r = r + t
+            return r
+        if x.is_Mul:
+            terms = [go(a) for a in sorted(x.args, key=sp.default_sort_key)]
+            r = terms[0]
+            for t in terms[1:]:
+                r = r * t
+            return r
+        if x.is_Pow and x.exp.is_Integer and int(x.exp) >= 1:
+            b = go(x.base)
+            r = b
+            for _ in range(int(x.exp) - 1):
+                r = r * b
+            return r
+        raise ValueError(f"not a polynomial: {x}")
+    return go(e)
+
+
+def canonical(t):
+    """a canonical z3 term for a polynomial z3 term (expanded, monomials and factors in sympy's sort order): two polynomial
+    terms that are equal as polynomials get the SAME canonical term, so uninterpreted functions applied to them coincide"""
+    env = {}
+    leaves = {}
+
+    class Env(dict):
+        pass
+    e = _to_sympy_with_leaves(t, env, leaves)
+    env["#leaves"] = leaves
+    return from_sympy(e, env)
+
+
+def _to_sympy_with_leaves(t, env, leaves):
+    def sym(name, term):
+        if name not in env:
+            env[name] = sp.Symbol(name, real=True)
+            leaves[name] = term
+        return env[name]
+
+    def go(e):
+        if z3.is_int_value(e):
+            return sp.Integer(e.as_long())
+        if z3.is_rational_value(e):
+            return sp.Rational(e.numerator_as_long(), e.denominator_as_long())
+        k = e.decl().kind()
+        ch = e.children()
+        if k == z3.Z3_OP_ADD:
+            return sp.Add(*[go(c) for c in ch])
+        if k == z3.Z3_OP_SUB:
+            r = go(ch[0])
+            for c in ch[1:]:
+                r = r - go(c)
+            return r
+        if k == z3.Z3_OP_MUL:
+            return sp.Mul(*[go(c) for c in ch])
+        if k == z3.Z3_OP_UMINUS:
+            return -go(ch[0])
+        if k == z3.Z3_OP_POWER and z3.is_int_value(ch[1]):
+            return go(ch[0]) ** ch[1].as_long()
+        # anything else (constants, to_real(int), select, ite, division, uninterpreted applications) is a leaf
+        return sym("leaf" + str(e.get_id()), e)
+    return go(t)
